@@ -1362,4 +1362,245 @@ theorem constMarkSound_of_coherent (sem : Sem V) (ctx : Ctx) (hco : TokCoherent 
     rw [← hc]
     exact congrArg some (hco.int i).symm
 
+/-! ### the decidable classifier `fragAWFB` (OV/Model/C03Frag.lean) is sound -/
+
+theorem lookupEvaluator_none_of_100 (n : Node) (h : (lookupEvaluator n 100).isNone = true) : ∀ v, lookupEvaluator n v = none := by
+  intro v
+  unfold lookupEvaluator at h ⊢
+  split
+  · rfl
+  · rename_i hd
+    simp only [hd, if_false] at h
+    split <;> first | rfl | (simp_all)
+
+theorem io1_some {n : Node} {x o : Name} (h : io1 n = some (x, o)) : n.inputs = [some x] ∧ n.outputs = [o] := by
+  unfold io1 at h
+  split at h
+  · rename_i x' o' hi ho
+    simp only [Option.some.injEq, Prod.mk.injEq] at h
+    rw [hi, ho, h.1, h.2]
+    exact ⟨rfl, rfl⟩
+  · simp at h
+
+/-- the decidable classifier is sound for the node classes of fragment A -/
+theorem nodeFragAB_sound (n : Node) (h : nodeFragAB n = true) : FragA n := by
+  unfold nodeFragAB at h
+  simp only [Bool.and_eq_true, Bool.or_eq_true, Bool.not_eq_true', List.isEmpty_iff, beq_iff_eq, bne_iff_ne, ne_eq] at h
+  obtain ⟨⟨hsubs, href⟩, hcls⟩ := h
+  refine ⟨hsubs, href, ?_⟩
+  rcases hcls with ((((hP | hK) | hI) | hR) | hC) | hCL
+  · exact Or.inl ⟨hP.1, lookupEvaluator_none_of_100 n hP.2⟩
+  · refine Or.inr (Or.inl ⟨hK.1.1, hK.1.2, ?_⟩)
+    have hl := hK.2
+    cases ho : n.outputs with
+    | nil => simp [ho] at hl
+    | cons o r =>
+      cases r with
+      | nil => exact ⟨o, rfl⟩
+      | cons b r' => simp [ho] at hl
+  · obtain ⟨⟨hop, hdom⟩, hio⟩ := hI
+    cases hio1 : io1 n with
+    | none => simp [hio1] at hio
+    | some p =>
+      obtain ⟨x, o⟩ := p
+      simp only [hio1] at hio
+      obtain ⟨hi, ho⟩ := io1_some hio1
+      exact Or.inr (Or.inr (Or.inl ⟨hop, hdom, x, o, hi, ho, by simpa using hio⟩))
+  · obtain ⟨hdom, hrest⟩ := hR
+    cases ho : n.outputs with
+    | nil => simp [ho] at hrest
+    | cons o r =>
+      cases r with
+      | cons b r' => simp [ho] at hrest
+      | nil =>
+        simp only [ho, Bool.and_eq_true, List.all_eq_true, Bool.or_eq_true, beq_iff_eq, bne_iff_ne, ne_eq] at hrest
+        obtain ⟨hne, hkind⟩ := hrest
+        have hne' : ∀ y, some y ∈ n.inputs → y ≠ o := fun y hy e => hne (some y) hy (by rw [e])
+        rcases hkind with ⟨hop, hin⟩ | ⟨hop, hin⟩
+        · cases hi : n.inputs with
+          | nil => simp [hi] at hin
+          | cons a r =>
+            cases a with
+            | none => simp [hi] at hin
+            | some x =>
+              cases r with
+              | nil => exact Or.inr (Or.inr (Or.inr (Or.inl ⟨hdom, x, o, ho, hne', Or.inl ⟨hop, hi⟩⟩)))
+              | cons b r' => simp [hi] at hin
+        · cases hi : n.inputs with
+          | nil => simp [hi] at hin
+          | cons a tl =>
+            cases a with
+            | none => simp [hi] at hin
+            | some x =>
+              simp only [hi, decide_eq_true_eq] at hin
+              exact Or.inr (Or.inr (Or.inr (Or.inl ⟨hdom, x, o, ho, hne', Or.inr ⟨hop, tl, hi, hin⟩⟩)))
+  · obtain ⟨⟨⟨hop, hdom⟩, hio⟩, hto⟩ := hC
+    cases hio1 : io1 n with
+    | none => simp [hio1] at hio
+    | some p =>
+      obtain ⟨x, o⟩ := p
+      simp only [hio1] at hio
+      obtain ⟨hi, ho⟩ := io1_some hio1
+      refine Or.inr (Or.inr (Or.inr (Or.inr (Or.inl ⟨hop, hdom, x, o, hi, ho, ?_, hto⟩))))
+      intro y hy e
+      rw [hi] at hy
+      have : y = x := by simpa using hy
+      have hox : ¬ o = x := by simpa using hio
+      exact hox (by rw [← e, this])
+  · obtain ⟨⟨⟨hop, hdom⟩, hattrs⟩, hio⟩ := hCL
+    cases hi : n.inputs with
+    | nil => simp [hi] at hio
+    | cons a r =>
+      cases a with
+      | none => simp [hi] at hio
+      | some x =>
+        cases r with
+        | nil => simp [hi] at hio
+        | cons b r2 =>
+          cases b with
+          | none => simp [hi] at hio
+          | some w =>
+            cases r2 with
+            | cons c r3 => simp [hi] at hio
+            | nil =>
+              cases ho : n.outputs with
+              | nil => simp [hi, ho] at hio
+              | cons o r' =>
+                cases r' with
+                | cons b' r'' => simp [hi, ho] at hio
+                | nil =>
+                  simp only [hi, ho, Bool.and_eq_true, bne_iff_ne, ne_eq] at hio
+                  refine Or.inr (Or.inr (Or.inr (Or.inr (Or.inr ⟨hop, hdom, hattrs, x, w, o, hi, ho, ?_⟩))))
+                  intro y hy e
+                  rw [hi] at hy
+                  have : y = x ∨ y = w := by simpa using hy
+                  rcases this with rfl | rfl
+                  · exact hio.1 e.symm
+                  · exact hio.2 e.symm
+
+theorem nameOKB_nf {y : Name} (h : nameOKB y = true) : NF y := by
+  intro k e
+  have : y.toList.head? = some '%' := by
+    rw [e]; simp [String.toList_append]
+  simp [nameOKB, this] at h
+
+theorem fragAWFB_sound (g : Graph) (h : fragAWFB g = true) :
+    (∀ n ∈ g.nodes, FragA n) ∧ orderOK g.nodes = true ∧
+    (∀ n ∈ g.nodes, ∀ o, n.outputs.contains o = true → g.inputs.contains o = false) ∧ (∀ n ∈ g.nodes, NodeNF n) ∧
+    (∀ k : Nat, cnt ("%" ++ toString k) g.nodes = 0) := by
+  unfold fragAWFB at h
+  simp only [Bool.and_eq_true, List.all_eq_true] at h
+  obtain ⟨⟨⟨h1, h2⟩, h3⟩, h4⟩ := h
+  have hnf : ∀ n ∈ g.nodes, NodeNF n := by
+    intro n hn y hy
+    have := h4 n hn
+    simp only [nodeNamesOKB, Bool.and_eq_true, List.all_eq_true] at this
+    simp only [mentionsTop, Bool.or_eq_true, List.contains_iff_mem] at hy
+    rcases hy with hy | hy
+    · exact nameOKB_nf (this.1 (some y) hy)
+    · exact nameOKB_nf (this.2 y hy)
+  refine ⟨fun n hn => nodeFragAB_sound n (h1 n hn), h2, ?_, hnf, ?_⟩
+  · intro n hn o ho
+    have := h3 n hn o (by simpa using ho)
+    simpa using this
+  · intro k
+    unfold cnt
+    apply List.count_eq_zero.mpr
+    intro hmem
+    obtain ⟨n, hn, hx⟩ := List.mem_flatMap.mp hmem
+    exact hnf n hn _ (mentions_of_input hx) k rfl
+
+theorem lookupA_mem {α} {l : List (Name × α)} {x : Name} {v : α} (h : lookupA l x = some v) : (x, v) ∈ l := by
+  unfold lookupA at h
+  cases hf : l.find? (fun p => p.1 == x) with
+  | none => simp [hf] at h
+  | some p =>
+    simp only [hf, Option.map_some, Option.some.injEq] at h
+    have hm := List.mem_of_find?_eq_some hf
+    have hp := List.find?_some hf
+    have : p.1 = x := by simpa using hp
+    have : p = (x, v) := by cases p; simp_all
+    rw [← this]; exact hm
+
+theorem infoOKB_sound (info : List (Name × VInfo)) (g : Graph) (h : infoOKB info g = true) :
+    (∀ x c, ((lookupA info x).getD {}).const = some c → NF x) ∧
+    (∀ x c, ((lookupA info x).getD {}).const = some c → ∀ m ∈ g.nodes, m.outputs.contains x = false) ∧
+    (∀ x dt, ((lookupA info x).getD {}).dtype = some dt → NF x) := by
+  unfold infoOKB at h
+  simp only [List.all_eq_true, Bool.and_eq_true, Bool.or_eq_true] at h
+  have key : ∀ x, ∀ vi, lookupA info x = some vi → _ := fun x vi hl => h (x, vi) (lookupA_mem hl)
+  refine ⟨?_, ?_, ?_⟩
+  · intro x c hc
+    cases hl : lookupA info x with
+    | none => simp [hl] at hc
+    | some vi =>
+      simp only [hl, Option.getD_some] at hc
+      rcases (key x vi hl).1 with h1 | h1
+      · simp [hc] at h1
+      · exact nameOKB_nf h1.1
+  · intro x c hc m hm
+    cases hl : lookupA info x with
+    | none => simp [hl] at hc
+    | some vi =>
+      simp only [hl, Option.getD_some] at hc
+      rcases (key x vi hl).1 with h1 | h1
+      · simp [hc] at h1
+      · have := h1.2 m hm
+        simpa using this
+  · intro x dt hd
+    cases hl : lookupA info x with
+    | none => simp [hl] at hd
+    | some vi =>
+      simp only [hl, Option.getD_some] at hd
+      rcases (key x vi hl).2 with h1 | h1
+      · simp [hd] at h1
+      · exact nameOKB_nf h1
+
+/-! ### `ConstMarkTyped` from typed tokens -/
+
+/-- the constants `_process_constant_node` recognises carry their true element type -/
+structure TokTyped {sem : Sem V} (L : OpLaws sem) (ctx : Ctx) : Prop where
+  tensor : ∀ t c, lookupTok ctx t = some c → L.hasDtype (sem.tensor t) c.dtype
+  ints : ∀ l, L.hasDtype (sem.intsTensor l) DT_INT64
+  int : ∀ i : Int, L.hasDtype (sem.intTensor i) DT_INT64
+
+/-- `ConstMarkTyped` holds of every `Constant` node in one of the three forms the semantics interprets -/
+theorem constMarkTyped_of_typed {sem : Sem V} (L : OpLaws sem) (ctx : Ctx) (hty : TokTyped L ctx) (o : Name) (a : String × Attr)
+    (ha : (∃ t, a = ("value", .tensor t)) ∨ (∃ l, a = ("value_ints", .ints l)) ∨ (∃ i, a = ("value_int", .int i))) :
+    ConstMarkTyped L ctx (.mk "Constant" "" [] [o] [a] []) := by
+  intro sub st0 x dt ρ ρ1 v hch hdt hev hv
+  have hxo : x = o := by
+    rcases processConstant_info ctx st0 (.mk "Constant" "" [] [o] [a] []) x with h | h
+    · exact absurd h hch
+    · simpa [Node.outputs] using h
+  subst hxo
+  have hev' : ∀ (w : V), constDenote sem (.mk "Constant" "" [] [x] [a] []) = some w → v = w := by
+    intro w hw
+    simp only [evalNode, Node.inputs, lookupAll, Option.bind, nodeOutputs, Node.subs, List.isEmpty_nil, if_true, hw,
+      Node.outputs, bindOuts, Option.some.injEq] at hev
+    rw [← hev, Env.set_get_same] at hv
+    exact (Option.some.inj hv).symm
+  rcases ha with ⟨t, rfl⟩ | ⟨l, rfl⟩ | ⟨i, rfl⟩
+  · rw [hev' (sem.tensor t) rfl]
+    cases hl : lookupTok ctx t with
+    | none =>
+      exfalso
+      apply hch
+      simp [processConstant, Node.isOp, Node.isOnnxDomain, Node.op, Node.domain, Node.subs, Node.attrs, Node.outputs, hl]
+    | some c0 =>
+      simp [processConstant, Node.isOp, Node.isOnnxDomain, Node.op, Node.domain, Node.subs, Node.attrs, Node.outputs, hl,
+        getInfo_setInfo] at hdt
+      rw [← hdt]
+      exact hty.tensor t c0 hl
+  · rw [hev' (sem.intsTensor l) rfl]
+    simp [processConstant, Node.isOp, Node.isOnnxDomain, Node.op, Node.domain, Node.subs, Node.attrs, Node.outputs,
+      getInfo_setInfo] at hdt
+    rw [← hdt]
+    exact hty.ints l
+  · rw [hev' (sem.intTensor i) rfl]
+    simp [processConstant, Node.isOp, Node.isOnnxDomain, Node.op, Node.domain, Node.subs, Node.attrs, Node.outputs,
+      getInfo_setInfo] at hdt
+    rw [← hdt]
+    exact hty.int i
+
 end OV.C03
